@@ -24,6 +24,9 @@ def make_case(rng, kind=None):
     mass = 10 ** rng.uniform(0, 4, size=n)
     if rng.random() < 0.2:
         mass[:] = mass[0]
+    intm = rng.random() < 0.12
+    if intm:
+        mass = np.ceil(mass)          # integer-VALUED masses; impl_hop hands them to the trajectory as an int64 array
     v = rng.normal(size=n) * 10 ** rng.uniform(-3, 0)
     d = rng.normal(size=n) * 10 ** rng.uniform(-2, 2)
     if n > 1 and rng.random() < 0.25:
@@ -38,9 +41,21 @@ def make_case(rng, kind=None):
     avail = b * b / (8 * a) * 2      # (v.u)^2/(2a) = b^2/(8a)
     avail = b * b / (8 * a)
     if kind is None:
-        kind = rng.choice(["down", "up-near", "up-far"], p=[0.3, 0.5, 0.2])
+        kind = rng.choice(["down", "up-near", "up-far", "perp-down", "perp-up"], p=[0.26, 0.46, 0.18, 0.06, 0.04])
     delta = 0.0
-    if kind == "down":
+    if kind in ("perp-down", "perp-up"):
+        # the velocity has NO component along the rescaling direction (exactly: b = 2 v.u = 0), or the particle is at rest:
+        # nothing can be taken out (every upward hop is frustrated), a downward hop gains +-sqrt(2 gap / a) along u
+        d = np.zeros(n)
+        j = int(rng.integers(0, n))
+        d[j] = float(rng.choice([-1.0, 1.0]) * 10 ** rng.uniform(-2, 2))
+        v = v.copy()
+        v[j] = 0.0
+        if n == 1 or rng.random() < 0.3:
+            v[:] = 0.0
+        avail = 0.0
+        gap = (-abs(rng.normal()) * 0.05 - 1e-6) if kind == "perp-down" else abs(rng.normal()) * 0.05 + 1e-6
+    elif kind == "down":
         gap = -abs(rng.normal()) * 0.05 - 1e-6
     elif kind == "up-near":
         delta = float(rng.choice([-1, 1]) * 10 ** rng.uniform(-13, -0.5))
@@ -48,7 +63,7 @@ def make_case(rng, kind=None):
     else:
         gap = avail * float(rng.choice([0.01, 0.3, 3.0, 100.0]))
     E[t] = E[s] + gap
-    return dict(n=n, N=N, mass=mass, v=v, d=d, E=E, s=s, t=t, kind=str(kind), delta=delta)
+    return dict(n=n, N=N, mass=mass, v=v, d=d, E=E, s=s, t=t, kind=str(kind), delta=delta, int_mass=bool(intm))
 
 
 def model_line(c):
@@ -70,6 +85,9 @@ def impl_hop(c, clsname):
     cls = get_class(clsname)
     n, N = c["n"], c["N"]
     mass = np.array(c["mass"], dtype=np.float64)
+    mdtype = np.float64
+    if c.get("int_mass"):
+        mdtype = None
     v = np.array(c["v"], dtype=np.float64)
     d = np.array(c["d"], dtype=np.float64)
     E = np.array(c["E"], dtype=np.float64)
@@ -86,7 +104,8 @@ def impl_hop(c, clsname):
         from mudslide.even_sampling import SpawnStack
         stack = SpawnStack.from_quadrature([2, 2], method="midpoint")
         opts["spawn_stack"] = stack
-    traj = cls(ShellModel(N, mass), np.zeros(n), v * mass, rho, queue=q, electronics=elec, **opts)
+    traj = cls(ShellModel(N, mass.astype(np.int64) if mdtype is None else mass, dtype=mdtype), np.zeros(n), v * mass, rho,
+               queue=q, electronics=elec, **opts)
     traj.velocity = np.array(v)
     hop = {"target": t, "weight": 1.0, "zeta": 0.25, "prob": 0.5}
     parent_before = None
